@@ -60,6 +60,27 @@ def main():
             for b in range(256):
                 traces.append(trace(tid, [first[c], b]))
                 tid += 1
+    elif a.mode == "inplace":
+        # one mutable buffer checksummed, modified in place (same length) and checksummed again; only the
+        # checksum of the whole buffer is observed (earlier steps carry -9 = not observed)
+        rng = random.Random(a.seed)
+        tid = a.first_id
+        for n in (1, 2, 3, 8, 64):
+            for kind in (bytearray, list):
+                buf = kind(rng.randrange(256) for _ in range(n))
+                for k in range(12):
+                    try:
+                        c = mod.crc7(buf)
+                        if type(c) is not int:
+                            c = -2
+                    except Exception:
+                        c = -1
+                    msg = list(buf)
+                    traces.append({"id": tid, "shape": {}, "steps": [
+                        {"in": {"e": "byte", "b": b}, "out": {"c": c if i == n - 1 else -9}} for i, b in enumerate(msg)]})
+                    tid += 1
+                    for _ in range(rng.choice([1, 1, 2, 3])):
+                        buf[rng.randrange(n)] ^= 1 << rng.randrange(8)
     elif a.mode == "long":
         # lengths around every multiple of 256 up to 1024 (a length field of the protocol is one byte wide)
         rng = random.Random(a.seed)
